@@ -31,6 +31,9 @@ def jobs(tier):
     if tier == "thorough":
         js.append(dict(name="drain:start:k2:line", end="drain", stall="start", k=2, P=1, gran="line"))
         js.append(dict(name="disconnect:start:k2:line", end="disconnect", stall="start", k=2, P=1, gran="line"))
+    js = common.shard(js, "sz0", len(SIZES), lambda j: j["k"] >= 2)
+    js = common.shard(js, "partial", 2, lambda j: j["k"] >= 2)
+    js = common.shard(js, "take", 3, lambda j: j["k"] >= 2 and j["end"] == "partial_drain")
     return js
 
 
